@@ -172,7 +172,71 @@ def foreign_flag(item):
                        reason=why, witness={"family": "call", "oracle": "foreign_flag", "args": [ci.short, fi.name]})]
 
 
+def validate_table(item):
+    """ns/validate: _validate_table decides per FIELD of the term (term.fields_()) whether its table - any kind of
+    source: table, sub-query, set operation, CTE reference - is a source of the statement"""
+    _k, fq, cq = item
+    r = repo()
+    fi, ci = r.funcs[fq], r.classes[cq]
+    name = f"{fi.short}@{ci.short}"
+    run = run_function(fi, ci, overrides={"term": "Term"})
+    if run.error:
+        return [Obligation(PROP, f"{name}|ns/validate", "ns/validate", fi.short, UNSUPPORTED, reason=run.error)]
+    bad = []
+    import re as _re
+    used = set()
+    for o in run.outcomes:
+        txt = " ".join(repr(e.seq) for e in o.state.effects if e.seq is not None) + " " + \
+            " ".join(str(p) for p in o.state.pc) + " " + " ".join(repr(e.recv) + e.method for e in o.state.effects)
+        used |= set(_re.findall(r"term\.(\w+)", txt)) | {e.method for e in o.state.effects
+                                                         if e.kind == "call" and "term" in repr(e.recv)}
+    used -= {"table"}
+    if "fields_" not in used:
+        bad.append(f"the term is not examined through term.fields_() (uses: {sorted(used)})")
+    if used - {"fields_"}:
+        bad.append(f"the term is examined through {sorted(used - {'fields_'})} instead of / besides its fields")
+    # the membership tests use the field's table and the statement's sources
+    alltxt = " ".join(" ".join(str(p) for p in o.state.pc) for o in run.outcomes)
+    for need, what in ((".table", "the field's table"), ("_from", "the FROM sources"), ("_joins", "the joined items")):
+        if need not in alltxt and need not in " ".join(repr(h.parts) for o in run.outcomes for h in o.state.heap.values()):
+            bad.append(f"the decision does not depend on {what}")
+    return [Obligation(PROP, f"{name}|ns/validate", "ns/validate", fi.short, REFUTED if bad else PROVED,
+                       detail="the foreign-table test iterates term.fields_() and tests each field's table against FROM, "
+                              "the UPDATE target and the joined items", reason="; ".join(sorted(set(bad))[:3]),
+                       witness={"family": "call", "oracle": "foreign_flag", "args": [ci.short]})]
+
+
+def orderby_str(item):
+    """ns/str-column: a column given by name to orderby()/groupby() becomes a Field of the first FROM source (so that
+    it is qualified whenever the statement qualifies its references)"""
+    from . import c01
+    _k, fq, cq = item
+    r = repo()
+    fi, ci = r.funcs[fq], r.classes[cq]
+    name = f"{fi.short}@{ci.short}"
+    run = run_function(fi, ci, pre=c01._pre, undecorated=True)
+    if run.error:
+        return [Obligation(PROP, f"{name}|ns/str-column", "ns/str-column", fi.short, UNSUPPORTED, reason=run.error)]
+    bad, n = [], 0
+    field = r.cls("terms.Field")
+    for o in run.outcomes:
+        for h in o.state.heap.values():
+            if h.fresh and h.cls is field:
+                n += 1
+                t = h.attrs.get("table")
+                if t is None or "self._from" not in repr(t):
+                    bad.append(f"a Field created from a column name has table {t!r}")
+    return [Obligation(PROP, f"{name}|ns/str-column", "ns/str-column", fi.short, REFUTED if bad else PROVED,
+                       detail=f"{n} Field object(s) created from names are bound to self._from[0]",
+                       reason="; ".join(sorted(set(bad))[:2]),
+                       witness={"family": "call", "oracle": "field_qualification", "args": [ci.short]})]
+
+
 def _dispatch(item):
+    if item[0] == "ns/validate":
+        return validate_table(item)
+    if item[0] == "ns/str-column":
+        return orderby_str(item)
     if item[0] == "ns/foreign-flag":
         return foreign_flag(item)
     return leaf(item)
@@ -193,6 +257,12 @@ def generate(tier="quick"):
         fi = r.func("queries.QueryBuilder." + m)
         for ci in classes_using(r, fi):
             items.append(("ns/foreign-flag", fi.qual, ci.qual))
+    vt = r.func("queries.QueryBuilder._validate_table")
+    for ci in classes_using(r, vt):
+        items.append(("ns/validate", vt.qual, ci.qual))
+    for m in ("orderby", "groupby"):
+        fi = r.func("queries.QueryBuilder." + m)
+        items.append(("ns/str-column", fi.qual, fi.cls.qual))
     obs = obs + parallel(_dispatch, items, procs=8)
     meta["functions"] = sorted(set(meta["functions"]) | {i[1] for i in items})
     return obs, meta
